@@ -507,7 +507,7 @@ func genCase(t *rapid.T) Case {
 }
 
 func TestProp(t *testing.T) {
-	evid.Rapid(t, "accessors", 5000, 80000, func(t *rapid.T) {
+	evid.Rapid(t, "accessors", 5000, 300000, func(t *rapid.T) {
 		c := genCase(t)
 		evid.Run(t, "accessors", c, func() evid.Outcome { return checkCase(c) })
 	})
